@@ -233,6 +233,32 @@ def run_case(spec):
                 hdr = f.readline().strip().split(",")
             if hdr[:len(want)] != want:
                 res.violate("csv_header", "%s: csv header differs from the column labels" % tag)
+            # export of a queried subset, in the order of the query (several queries concatenated are not ascending)
+            if got == want and len(want) > 3 and raw.shape == data.shape:
+                ksub = int(rng.integers(2, min(8, len(want))))
+                sub = [int(i) for i in rng.choice(np.arange(0, len(want)), size=ksub, replace=False)]
+                if rng.random() < 0.5:
+                    pat_idx, _ = plt.find(want[sub[0]].split(" ")[0])        # a find() result followed by single columns
+                    sub = list(pat_idx)[:5] + [i for i in sub if i not in pat_idx]
+                csvs = os.path.join(sd, "export_subset.csv")
+                plt.export_csv(csvs, idx=list(sub))
+                res.count("csv_subset_exports")
+                if sub != sorted(sub):
+                    res.count("csv_subset_exports_not_ascending")
+                with open(csvs) as f:
+                    hdr2 = f.readline().strip().split(",")
+                raw2 = np.loadtxt(csvs, delimiter=",", skiprows=1, ndmin=2)
+                if len(hdr2) != len(sub) or raw2.shape != (data.shape[0], len(sub)) or sorted(hdr2) != sorted(want[i] for i in sub):
+                    res.violate("csv_subset_shape", "%s: export_csv(idx=%s) wrote columns %s" % (tag, sub, hdr2))
+                else:
+                    for c, lab in enumerate(hdr2):
+                        col = want.index(lab)
+                        res.count("csv_subset_columns_checked")
+                        if not np.array_equal(raw2[:, c], data[:, col]):
+                            holds = [want[k] for k in sub if np.array_equal(raw2[:, c], data[:, k])]
+                            res.violate("csv_subset_label", "%s: export_csv(idx=%s): the column labelled %r holds the values of %s" % (
+                                tag, sub, lab, holds[:1] or "another variable"), tag=tag)
+                            break
             if spec["index"] % 3 == 0 and data.shape[0] >= 2:
                 # the replay itself stores every row it reads
                 rc2 = au.write_rc(os.path.join(sd, "replay.rc"), {"TDS": dict(no_tqdm=1), "PFlow": dict(report=0)})
